@@ -137,7 +137,7 @@ def apply_window(nodes: Dict[str, "BaseNode"], graphs: Graph) -> WindowedGraph:
 
 def to_networkx_graph(graph: Graph, nodes: Dict[str, "BaseNode"] = None, validate: bool = False) -> nx.DiGraph:
     graph = jax.tree_util.tree_map(lambda x: onp.array(x), graph)
-    order = {n: nodes[n].order for n in nodes} if nodes is not None else {n: None for n in enumerate(graph.vertices.keys())}
+    order = {n: nodes[n].order for n in nodes} if nodes is not None else {n: None for n in graph.vertices.keys()}
     order_filter = list(filter(None, order.values()))
     max_val = max(order_filter) if len(order_filter) > 0 else 0
     increment = max_val + 1
@@ -145,7 +145,7 @@ def to_networkx_graph(graph: Graph, nodes: Dict[str, "BaseNode"] = None, validat
         if order[key] is None:
             order[key] = increment
             increment += 1
-    colors = {n: nodes[n].color for n in nodes} if nodes is not None else {n: "gray" for n in enumerate(graph.vertices.keys())}
+    colors = {n: nodes[n].color for n in nodes} if nodes is not None else {n: "gray" for n in graph.vertices.keys()}
     colors = {n: c if isinstance(c, str) else "gray" for n, c in colors.items()}
     ecolors, fcolors = oc.cscheme_fn(colors)
 
